@@ -1069,6 +1069,38 @@ Definition check (tag : Z) (inp obs : list Z) : verdict :=
         (spec_61 k which (nz code) (nz ch) (nz a) (nz c))
   | 62, [idx; x; y; z] =>
       verdict_of obs (model_62 (nz idx) (nz x) (nz y) (nz z)) (spec_62 (nz idx) (nz x) (nz y) (nz z))
+  | 63, [which; v] =>
+      (* test_util scalar helpers: panic exactly for out-of-range arguments *)
+      verdict_of obs (match tu_scalar (nz which) (nz v) with Ok x => [zN x] | Panic => [ZPANIC] end)
+        (if N.leb (nz v) (tu_scalar_max (nz which)) then [v] else [ZPANIC])
+  | 64, [which; ch; x; y] =>
+      (* test_util shorthands of the multi-message constructs: which 0 control_change_14_bit,
+         1 nrpn, 2 nrpn_14_bit, 3 rpn, 4 rpn_14_bit; observation = the message or a panic *)
+      let chk := fun (mx v : N) => N.leb v mx in
+      let spec :=
+        if Z.eqb which 0 then
+          (if chk 15%N (nz ch) && chk 31%N (nz x) && chk 16383%N (nz y)
+           then [ch; x; y] else [ZPANIC])
+        else
+          let is14 := Z.eqb which 2 || Z.eqb which 4 in
+          if chk 15%N (nz ch) && chk 16383%N (nz x) && chk (if is14 then 16383 else 127)%N (nz y)
+          then [ch; x; y; zb (Z.leb 3 which); zb is14; 0] else [ZPANIC] in
+      let model :=
+        if Z.eqb which 0 then
+          match checked 15%N (nz ch), checked 127%N (nz x), checked 16383%N (nz y) with
+          | Ok c, Ok n, Ok v => match cc14_new c n v with
+                                | Ok m => enc_cc14 (Some m) | Panic => [ZPANIC] end
+          | _, _, _ => [ZPANIC]
+          end
+        else
+          let is14 := Z.eqb which 2 || Z.eqb which 4 in
+          match checked 15%N (nz ch), checked 16383%N (nz x), checked (if is14 then 16383 else 127)%N (nz y) with
+          | Ok c, Ok n, Ok v =>
+              enc_pn (Some (if is14 then pn_fourteen_bit c n v (Z.leb 3 which)
+                            else pn_seven_bit c n v (Z.leb 3 which) DataEntry))
+          | _, _, _ => [ZPANIC]
+          end in
+      verdict_of obs model spec
   | 70, [ch; cn; v] => verdict_of obs (model_70 (nz ch) (nz cn) (nz v)) (spec_70 (nz ch) (nz cn) (nz v))
   | 71, ch :: cn :: v :: k :: prior =>
       verdict_of obs (model_71 (nz ch) (nz cn) (nz v) k (dec_cc14ops prior))
